@@ -290,7 +290,7 @@ theorem mantissa_comma_decimal (X F : Bytes) (hX : NoMarks X) (hF : NoMarks F)
     | true =>
       simp only [Bool.and_eq_true, decide_eq_true_eq, beq_iff_eq] at hh
       exact absurd ⟨hh.1.1, hh.1.2, hh.2⟩ hc
-  simp [hcond, List.take_left', List.drop_left']
+  simp [hcond, List.take_left']
 
 theorem mantissa_comma_group (X L : Bytes) (hX : NoMarks X) (hL : NoMarks L)
     (h1x : X.length ≥ 1) (h3 : L.length = 3) (hnz : hasNZ X = true) :
@@ -304,7 +304,7 @@ theorem mantissa_comma_group (X L : Bytes) (hX : NoMarks X) (hL : NoMarks L)
   have h4 : (X ++ COMMA :: L).length - X.length - 1 = L.length := by simp
   unfold normalizeMantissa
   simp only [h1, h2, h3', h4, hasNonZero_prefix]
-  simp [h1x, h3, hnz, List.take_left', List.drop_left']
+  simp [h1x, h3, hnz, List.take_left']
 
 theorem mantissa_dot_decimal (X F : Bytes) (hX : NoMarks X) (hF : NoMarks F)
     (hc : ¬ (X.length ≥ 1 ∧ F.length = 3 ∧ hasNZ X = true)) :
@@ -338,7 +338,7 @@ theorem mantissa_dot_group (X L : Bytes) (hX : NoMarks X) (hL : NoMarks L)
   have h4 : (X ++ DOT :: L).length - X.length - 1 = L.length := by simp
   unfold normalizeMantissa
   simp only [h1, h2, h3', h4, hasNonZero_prefix]
-  simp [h1x, h3, hnz, List.take_left', List.drop_left']
+  simp [h1x, h3, hnz, List.take_left']
 
 theorem mantissa_commas (s : Bytes) (hk : s.count COMMA ≥ 2) (hd : DOT ∉ s) :
     normalizeMantissa s = removeSeparator s COMMA := by
